@@ -81,4 +81,4 @@ def obligations(tier, seed):
                         obs.append({"name": "equiv0/k=%s/%s/rule=%d/zero-work-auto" % (profiles.KN[k], layout, rule), "harness": "equiv", "cube": {"spec": spec, "w1": 0, "zero_auto": True},
                                     "params": [["w0", 0, 2], ["w2", 0, 2], ["pa0", 0, 5], ["pa1", 0, 8]], "pre": "pa0 < pa1",
                                     "timeout": 900 if thorough else 150, "engine": "zsym"})
-    return obs
+    return profiles.split_param(obs, "pa0", only_if=lambda ob: ob["harness"] == "equiv" and not thorough and False) if False else obs
